@@ -52,7 +52,7 @@ def confirm(prop, k, slot):
     res["demo_patched"] = {"exit": rc1, "tail": out1[-600:]}
     rct, outt = sh("/venv/bin/python -m pytest -q -p no:cacheprovider -x -n 4 2>&1 | tail -3", cwd=wt, env=env, timeout=1200)
     res["tests_patched"] = outt.strip()[-200:]
-    rcd, diff = sh("git diff", cwd=wt)
+    diff = subprocess.run("git diff", shell=True, cwd=wt, capture_output=True).stdout   # bytes: CRLF must survive
     sh("git checkout -- . && rm -f demo.py", cwd=wt)
     res["confirmed"] = (rc0 == 0 and rc1 != 0 and "91 passed" in outt)
     if not res["confirmed"]:
@@ -92,11 +92,11 @@ def main():
         for r in ex.map(lane, range(4)):
             results += [x for x in r if x]
     for r in sorted(results, key=lambda r: r["id"]):
-        diff = r.pop("_diff", "")
+        diff = r.pop("_diff", b"")
         if not r.get("confirmed"):
             print("%-8s NOT CONFIRMED: %s" % (r["id"], r.get("why")))
             continue
-        sv = static_verdicts(diff, built)
+        sv = static_verdicts(diff.decode(), built)
         det = sorted(p for p, v in sv.items() if isinstance(v, dict) and v.get("status") == "violation")
         err = sorted(p for p, v in sv.items() if isinstance(v, dict) and v.get("status") == "error")
         prop, k = r["property"], str(r["k"])
@@ -107,7 +107,7 @@ def main():
             meta = {}
         d = os.path.join(V, "seeded", r["id"])
         os.makedirs(d, exist_ok=True)
-        with open(os.path.join(d, "patch.diff"), "w") as f:
+        with open(os.path.join(d, "patch.diff"), "wb") as f:
             f.write(diff)
         shutil.copy(os.path.join(src, "demo%s.py" % k), os.path.join(d, "demo.py"))
         meta_out = {"property": prop, "summary": meta.get("summary", ""), "needs": meta.get("needs", ""),
